@@ -59,6 +59,10 @@ class Monitor(object):
                 if last is not None and woke > last[0]:
                     # it slept on the condition, was woken, and went on to wait again WITHOUT looking at its result
                     sig += ":woken-and-did-not-look"
+                if lt.block_kind != "stream.poll.wait" and lt.block_step < rs:
+                    # it was ALREADY parked on the condition when its reply was processed: the hand-off that followed did
+                    # not wake it (a missed notification, whoever holds the lock now)
+                    sig += ":parked-before-the-reply-was-processed"
                 if lt.block_kind != "stream.poll.wait":
                     # waiting for the receive lock: who holds it?  (a waiter parked behind another stalled
                     # waiter is a cascade of the same defect; parked while the lock is free is a lost notification)
@@ -149,7 +153,7 @@ def install_wrappers():
 
 def watch_set(full=True):
     core = [_orig["serve"], _orig["dispatch"], Connection._seq_request_callback, Connection._async_request,
-            Connection._get_seq_id, _orig["ar_call"], AsyncResult.wait, BgServingThread._bg_server]
+            Connection._get_seq_id, _orig["ar_call"], AsyncResult.wait, BgServingThread._bg_server, Connection.poll, Connection.poll_all]
     if not full:
         # quick tier: the hand-off code proper.  Interleavings inside _send are C12's subject; sync_request /
         # async_request / value / stop touch no shared state between the lines that are dropped here.
@@ -244,7 +248,19 @@ def make_run(nreq_threads, nreq, bg, stop_at_stall=False, timeout=30):
             # POR: a peer step (take frames, write one reply) is observable by the connection only through
             # its next poll of the transport, so the peer is offered at those points (and when all else blocks)
             s.spawn(peer.run, "peer", free=True, only_at=POR_AT)
-            bgt = BgServingThread(conn) if bg else None
+            bgt = BgServingThread(conn) if bg is True else None
+            stop_poller = [False]
+            pol = None
+            if bg == "poller":
+                # a second thread that looks after the connection with poll_all() (what .ready / poll() callers do)
+                def poller():
+                    while not stop_poller[0]:
+                        try:
+                            conn.poll_all(0.1)
+                        except EOFError:
+                            return
+                pol = S.SimThread(target=poller, name="poller")
+                pol.start()
             ts = []
             for i in range(nreq_threads):
                 th = S.SimThread(target=requester, args=(conn, i, nreq, out), name="req%d" % i)
@@ -254,6 +270,9 @@ def make_run(nreq_threads, nreq, bg, stop_at_stall=False, timeout=30):
                 th.join()
             if bgt is not None:
                 bgt.stop()
+            if pol is not None:
+                stop_poller[0] = True
+                pol.join()
 
         try:
             sch.run(main)
@@ -328,6 +347,7 @@ CONFIGS = {
         ("2req+bg/pb2", 2, 1, True, 2, True),
         ("3req/pb1", 3, 1, False, 1, True),
         ("2req-x2/pb1", 2, 2, False, 1, True),
+        ("1req+poller/pb2", 1, 1, "poller", 2, True),
     ],
     "thorough": [
         ("1req+bg", 1, 1, True, None, True),
@@ -336,6 +356,8 @@ CONFIGS = {
         ("3req/pb3", 3, 1, False, 3, True),
         ("2req-x2/pb3", 2, 2, False, 3, True),
         ("3req+bg/pb2", 3, 1, True, 2, True),
+        ("1req+poller/pb3", 1, 1, "poller", 3, True),
+        ("2req+poller/pb2", 2, 1, "poller", 2, True),
     ],
 }
 
